@@ -104,6 +104,9 @@ pub fn run_once(scn: &dyn Scenario, prefix: Vec<(u8, u64)>, trace: bool) -> (Exe
   let (body, check) = scn.instantiate();
   let mut cfg = scn.cfg();
   cfg.trace = trace;
+  if crate::exec::TRY_SEEN.load(Ordering::Relaxed) {
+    cfg.release_points = true;
+  }
   let exec = Exec::new(cfg, prefix);
   let end = exec.run(body);
   let v = check(&end);
@@ -243,6 +246,19 @@ fn worker(scn: &dyn Scenario, sh: &Shared, cfg: &ExploreCfg, t0: Instant) {
 }
 
 pub fn explore(scn: &dyn Scenario, cfg: &ExploreCfg) -> ExploreStats {
+  let before = crate::exec::TRY_SEEN.load(Ordering::Relaxed);
+  let st = explore_once(scn, cfg);
+  if !before && crate::exec::TRY_SEEN.load(Ordering::Relaxed) && st.violations.is_empty() {
+    // the code under test uses try_* locks: explore again with scheduling
+    // points before lock releases (run_once switches them on from now on)
+    let mut st2 = explore_once(scn, cfg);
+    st2.wall_s += st.wall_s;
+    return st2;
+  }
+  st
+}
+
+fn explore_once(scn: &dyn Scenario, cfg: &ExploreCfg) -> ExploreStats {
   crate::exec::install_quiet_panic_hook();
   let t0 = Instant::now();
   let sh = Shared {
